@@ -15,6 +15,9 @@ def jobs(tier, seed):
     from vverif.contracts import abi_kernels as K
 
     J.append({"id": "C05/F/abi-kernels.needs_clamp", "fn": "vverif.contracts.abi_kernels:job_needs_clamp", "args": (), "functions": K.FUNCS, "engine": "FinEx"})
+    from vverif.contracts import genvc_kernels as GK
+
+    J.append({"id": "C05/G/core.clamp_basetype", "fn": "vverif.contracts.genvc_kernels:job_clamps", "args": (), "functions": GK.FUNCS_PTR, "engine": "GenVC"})
     return J
 
 
@@ -33,7 +36,10 @@ FUNCS = {
 def replay(o):
     k = (o.get("replay") or {}).get("kind")
     from vverif.contracts import abi_kernels as K
+    from vverif.contracts import genvc_kernels as GK
 
+    if k in GK.REPLAY:
+        return GK.REPLAY[k](o)
     if k in K.REPLAY:
         return K.REPLAY[k](o)
     if k in S.REPLAY:
